@@ -4,6 +4,7 @@
    answer: M <hex of the block bytes the model writes> #items=<n> -/
 import CdnsVerif.Driver.Util
 import CdnsVerif.Model.Builder
+import CdnsVerif.Model.Resolve
 namespace CdnsVerif.Driver.Bld
 open CdnsVerif.Spec.Cbor CdnsVerif.Model CdnsVerif.Model.Builder CdnsVerif.Model.Schema CdnsVerif.Model.Structs CdnsVerif.Model.Timestamp CdnsVerif.Driver
 
@@ -91,6 +92,56 @@ def handle (args : List String) : String :=
       let blk := build h (toks.filterMap recOf)
       let v := toVal blk pi.toNat? t
       s!"M {toHex (writeBytes block v)} #items={itemCount blk},conforms={if conformsB block v then "yes" else "no"}"
+    | _, _, _, _, _ => "bad-args"
+  | _ => "bad-op"
+
+/-! rendering in the notation of harness/records.h (`show_qr`) -/
+def xs (b : Bytes) : String := "x" ++ toHex b
+def showRR (r : GRR) : String :=
+  s!"{xs r.name}~{r.type}~{r.cls}~{match r.ttl with | some t => toString t | none => "-"}~{match r.rdata with | some d => xs d | none => "-"}"
+def fN (k : String) (o : Option Nat) : List String := match o with | some n => [s!"{k}={n}"] | none => []
+def fI (k : String) (o : Option Int) : List String := match o with | some n => [s!"{k}={n}"] | none => []
+def fS (k : String) (o : Option Bytes) : List String := match o with | some b => [s!"{k}={xs b}"] | none => []
+def fL (k : String) (o : Option (List GRR)) : List String :=
+  match o with | some (x :: l) => [s!"{k}={"+".intercalate ((x :: l).map showRR)}"] | _ => []
+def showQ (g : GQR) : String :=
+  "Q{" ++ ",".intercalate (
+    (match g.ts with | some t => [s!"ts={t.secs}.{t.ticks}"] | none => []) ++
+    fS "cip" g.clientIp ++ fN "cport" g.clientPort ++ fN "tid" g.transactionId ++ fS "sip" g.serverIp ++ fN "sport" g.serverPort ++
+    fN "tf" g.transportFlags ++ fN "qt" g.qrType ++ fN "sf" g.sigFlags ++ fN "op" g.opcode ++ fN "df" g.dnsFlags ++ fN "qrc" g.queryRcode ++
+    (match g.classtype with | some c => [s!"ct={c.1}.{c.2}"] | none => []) ++
+    fN "qd" g.qdcount ++ fN "an" g.ancount ++ fN "ns" g.nscount ++ fN "ar" g.arcount ++ fN "ev" g.ednsVersion ++ fN "us" g.udpSize ++
+    fS "ord" g.optRdata ++ fN "rrc" g.responseRcode ++ fN "hl" g.hoplimit ++ fI "rd" g.responseDelay ++ fS "qn" g.queryName ++
+    fN "qs" g.querySize ++ fN "rs" g.responseSize ++ fS "bw" g.bailiwick ++ fN "pf" g.processingFlags ++
+    fL "qq" g.queryQuestions ++ fL "qa" g.queryAnswers ++ fL "qu" g.queryAuthority ++ fL "qx" g.queryAdditional ++
+    fL "rq" g.responseQuestions ++ fL "ra" g.responseAnswers ++ fL "ru" g.responseAuthority ++ fL "rx" g.responseAdditional ++
+    fS "asn" g.asn ++ fS "cc" g.countryCode ++ fI "rtt" g.roundTripTime) ++ "}"
+
+/-- `prjd <qrh> <sigh> <rrh> <odh> <tps> <records…>`: what reading back must yield for the query/responses buffered
+    (`Model.expectedQrs`, proved equal to index resolution of the block built: `Props.C01.records_resolve_to_projection`) -/
+def handlePrjd (args : List String) : String :=
+  match args with
+  | qrh :: sigh :: rrh :: odh :: tps :: toks =>
+    match qrh.toNat?, sigh.toNat?, rrh.toNat?, odh.toNat?, tps.toNat? with
+    | some a, some b, some c, some d, some t =>
+      let h : Hints := { qrh := a, sigh := b, rrh := c, odh := d, tps := t }
+      "M " ++ ";".intercalate ((expectedQrs h (toks.filterMap recOf)).map showQ)
+    | _, _, _, _, _ => "bad-args"
+  | _ => "bad-op"
+
+/-- `prj <qrh> <sigh> <rrh> <odh> <tps> <records…>`: after EVERY prefix of the record sequence, does index resolution of the
+    stored query/responses give the hint projection of the records buffered (those of which anything is stored)? -/
+def handlePrj (args : List String) : String :=
+  match args with
+  | qrh :: sigh :: rrh :: odh :: tps :: toks =>
+    match qrh.toNat?, sigh.toNat?, rrh.toNat?, odh.toNat?, tps.toNat? with
+    | some a, some b, some c, some d, some t =>
+      let h : Hints := { qrh := a, sigh := b, rrh := c, odh := d, tps := t }
+      let recs := toks.filterMap recOf
+      let blk := build h recs
+      let expected := expectedQrs h recs
+      let got := blk.qrs.map (resolveQ blk)
+      if got == expected then s!"M ok #{got.length}" else s!"M DIFF #{got.length}/{expected.length}"
     | _, _, _, _, _ => "bad-args"
   | _ => "bad-op"
 
